@@ -968,7 +968,7 @@ def run(ctx):
         'modelled (out = returned) and not reported.',
         'literals are spelled so that float() of the text equals the exact rational the model reads (multiples of 1/2 and short decimals): '
         'no comparison depends on decimal-to-binary rounding.']
-    ctx.proof(extra=['props/Prop_Tie_Cyclesobj.v', 'props/Prop_Tie_Cyclesobj2.v', 'props/Prop_Tie_Cyclestat.v', 'props/Prop_Tie_Misc.v', 'props/Prop_Tie_Wave.v', 'props/Prop_Tie_Cyciter.v'])  # translation tie: program regenerated from the source + refinement theorems
+    ctx.proof(extra=['props/Prop_Tie_Cyclesobj.v', 'props/Prop_Tie_Cyclesobj2.v', 'props/Prop_Tie_Cyclestat.v', 'props/Prop_Tie_Misc.v', 'props/Prop_Tie_Wave.v', 'props/Prop_Tie_Cyciter.v', 'props/Prop_Tie_Cycgen.v'])  # translation tie: program regenerated from the source + refinement theorems
     corpus = load_corpus()
     ngrid = 70 if ctx.quick() else 1500
     cases = ([dict(c, cache=1) for _, c in corpus] + [gen_case(ctx.rng) for _ in range(nrand)]
